@@ -363,6 +363,9 @@ class Summaries:
             return mk(name, a[0], a[1])
         if tp == "core::iter::Iterator::fold":
             return self.fold(ctx, a[0], a[1], a[2])
+        if tp == "core::iter::DoubleEndedIterator::rfold":
+            src = a[0].args[0] if a[0].op == "rev" else mk("rev", a[0])
+            return self.fold(ctx, src, a[1], a[2])
         if tp == "core::iter::Iterator::try_fold" and a[2].op == "closure":
             # fold with early exit: the step yields Ok/Some(next accumulator) or the residual that ends the fold
             item = I.fresh("item")
@@ -518,6 +521,8 @@ class Summaries:
                 return ite(c, a[1], bad)
             if meth in ("copied", "cloned", "as_ref", "as_mut", "as_deref"):
                 return x
+            if meth == "flatten" and is_opt:
+                return ite(c, good, variant("None"))
             if meth == "err" and not is_opt:
                 return ite(c, variant("None"), variant("Some", payload(x, "Err", 0)))
             if meth == "is_some_and" or meth == "is_ok_and":
